@@ -420,6 +420,10 @@ def run(model: RepoModel, rep, tier: str):
     generic3.check_bodies_parsed_whole(model, rep, "C02.R10", [f"lang/{l}_parser.py" for l in ("c", "java", "javascript", "typescript", "php") if f"lang/{l}_parser.py" in model.modules],
                                        func_filter=lambda f_: _re.search(r"(^|_)(for|while|do|if|foreach|else)(_|$)", f_.name) is not None)
     generic3.check_repeated_fields(model, rep, "C02.R10")
+    from .. import generic4
+    rep.rule("C02.R11", "element indices count elements in every frontend: a loop that numbers the children of an array/list literal with "
+                        "enumerate() does not skip children (comments) inside the counted loop", 4)
+    generic4.check_skip_counted_indices(model, rep, "C02.R11", [m_.rel for lg_, m_ in gir.frontend_modules(model, gir.SEVEN)], min_sites=4)
 
 
 def _scope_builder_ops(model: RepoModel) -> Set[str]:
